@@ -254,13 +254,6 @@ impl Tag {
         }
     }
 
-    pub fn get_element(&self) -> Option<SvgElement> {
-        match self {
-            Tag::Compound(el, _) => Some(el.clone()),
-            Tag::Leaf(el, _) => Some(el.clone()),
-            _ => None,
-        }
-    }
 }
 
 // Provide a list of tags which can be processed in-order.
